@@ -824,8 +824,8 @@ def object_impl_conformance(run, events):
     """byte-level: every recorded cursor sub-step and insertion against the object-level transcription
     (spec/ObjectImpl.tla: decompress-first, cursor translation, byte moves, offset shifts).  Notes only."""
     sel = [l for l in events if '"op":"cursor"' in l[:4000] or '"op":"insert' in l[:4000] or '"op":"recompute"' in l[:4000] or '"op":"rename"' in l[:4000]]
-    if quick(run):
-        sel = sel[vlib.seed() % 3::3]
+    k = 3 if quick(run) else 5
+    sel = sel[vlib.seed() % k::k]
     if not sel:
         return
     path = os.path.join(run.wd, "objimpl.ndjson")
